@@ -141,9 +141,11 @@ def find_fn(text, mask, name, impl=None, within=None):
 def find_arm(text, mask, lo, hi, pattern):
     """Within text[lo:hi], find `<pattern> ... =>` and return (start, end) of the arm's body:
     a block's inner range, or an expression up to the terminating comma."""
-    for m in re.finditer(re.escape(pattern), text[lo:hi]):
+    for m in re.finditer(re.escape(pattern) + r"(?![\w:])", text[lo:hi]):
         s = lo + m.start()
         if not mask[s]:
+            continue
+        if s > 0 and (text[s - 1].isalnum() or text[s - 1] in "_:"):
             continue
         # must be the start of a pattern: previous non-space char is one of { , | or newline-start
         # scan forward to `=>` at depth 0
@@ -352,7 +354,25 @@ def rule_SUB(body, arg):
     return body.replace(frm.strip(), to.strip()), n
 
 
-RULES = {"R1": rule_R1, "R2": rule_R2, "R3": rule_R3, "R4": rule_R4, "R6": rule_R6, "R7": rule_R7, "R8": rule_SUB}
+def rule_R10(body, arg=None):
+    """`for _ in <range>`: name the iterator so that a loop invariant can mention the iteration count."""
+    return re.subn(r"\bfor\s+_\s+in\s+", "for _ in __it: ", body)
+
+
+def rule_R11(body, arg=None):
+    """std calls without a vstd specification are routed through helpers carrying the std-documented
+    contract: `X.reverse()` -> `vec_reverse(&mut X)`."""
+    return re.subn(r"\b(\w+)\.reverse\(\)", r"vec_reverse(&mut \1)", body)
+
+
+def rule_R6n(body, arg=None):
+    """float arm of Negate and the unspecified std call checked_neg"""
+    body, n = re.subn(r"Object::float\(-left\.as_f64_unchecked\(\),\s*gc\)", "float_neg_arm(left, gc)", body)
+    body, k = re.subn(r"left\.as_int\(\)\.checked_neg\(\)", "checked_neg_isize(left.as_int())", body)
+    return body, n + k
+
+
+RULES = {"R6n": rule_R6n, "R10": rule_R10, "R11": rule_R11, "R1": rule_R1, "R2": rule_R2, "R3": rule_R3, "R4": rule_R4, "R6": rule_R6, "R7": rule_R7, "R8": rule_SUB}
 
 
 def apply_rules(body, rules, counts):
@@ -360,7 +380,7 @@ def apply_rules(body, rules, counts):
         r = r.strip()
         if not r:
             continue
-        m = re.match(r"(R\d)(?:\[(.*)\])?$", r, re.S)
+        m = re.match(r"(R\d+n?)(?:\[(.*)\])?$", r, re.S)
         if not m or m.group(1) not in RULES:
             raise ValueError("unknown rule %r" % r)
         body, n = RULES[m.group(1)](body, m.group(2))
